@@ -508,7 +508,7 @@ def cmd_check(prop, tier, runs, jobs, seed):
                     wid, (a, b) = next(it)
                 except StopIteration:
                     return False
-                futs[pool.submit(run_chunk, flavour, prop, seed, a, b, wid, outdir, 1800)] = (a, b)
+                futs[pool.submit(run_chunk, flavour, prop, seed, a, b, wid, outdir, 600)] = (a, b)
                 return True
             for _ in range(jobs):
                 submit()
